@@ -1,6 +1,6 @@
 (* PropC06.v — property C06 (parsing is total, a bad line affects only itself).
    Only statements, closed by [exact]; proofs live in MappingProofs.v. *)
-From PG Require Import Base Mapping MappingProofs.
+From PG Require Import Base Mapping MappingProofs IsolationProofs.
 
 (* the iterator always advances: the remaining slice gets strictly shorter *)
 Theorem C06_progress : forall b : list N, b <> [] -> (length (snd (parse_record b)) < length b)%nat.
@@ -10,5 +10,24 @@ Proof. exact parse_record_progress. Qed.
 Theorem C06_items_bound : forall b : list N, (length (items b) <= length b)%nat.
 Proof. exact items_length_bound. Qed.
 
+(* no name, type, argument string or header value yielded contains a line terminator *)
+Theorem C06_no_terminator : forall (b : list N) (r : record),
+  In (IOk r) (items b) -> Forall nlfree (record_strings r).
+Proof. exact items_no_terminator. Qed.
+
+(* parsing resynchronises at every line break: the records of A + newline + B are the
+   records of A followed by the records of B *)
+Theorem C06_isolation : forall (A B nl : list N),
+  In nl [[10]; [13]; [13;10]] -> recs (A ++ nl ++ B) = recs A ++ recs B.
+Proof. exact recs_isolation. Qed.
+
+(* totality: the model is a total function; every sub-slice it takes is obtained by
+   position()+split_at / strip_prefix, which cannot be out of bounds (MappingProofs: span_app,
+   strip_prefix_app); the iterator terminates by C06_progress. *)
+
+Check C06_no_terminator : forall (b : list N) (r : record),
+  In (IOk r) (items b) -> Forall nlfree (record_strings r).
+Check C06_isolation : forall (A B nl : list N),
+  In nl [[10]; [13]; [13;10]] -> recs (A ++ nl ++ B) = recs A ++ recs B.
 Check C06_progress : forall b : list N, b <> [] -> (length (snd (parse_record b)) < length b)%nat.
 Check C06_items_bound : forall b : list N, (length (items b) <= length b)%nat.
